@@ -540,6 +540,29 @@ def part_d(ck, tier, rng):
             except OSError:
                 pass
         X.with_timeout(lambda: group.terminate(timeout=1.0), 10)
+    # the exit request cannot be sent (the local write side is gone) while the worker cannot end by itself: terminate() still has to join
+    # or kill it
+    for rd in range(1 if tier == "quick" else 3):
+        group = execnet.Group()
+        gw = group.makegateway("popen//id=nx%d" % rd)
+        pid = gw._rinfo().pid
+        os.kill(pid, signal.SIGSTOP)
+        gw._io.close_write()                      # what a failed earlier write or an ended local receiver thread leaves behind
+        t0 = time.time()
+        st, val = X.with_timeout(lambda: group.terminate(timeout=1.0), 20)
+        dt = time.time() - t0
+        time.sleep(0.3)
+        ck.case(("exit-request-unsendable", rd), nontrivial=True)
+        ck.count("exit_request_unsendable")
+        if st != "ok":
+            ck.fail("terminate-raises-or-hangs:exit-request-unsendable", {"status": st, "error": repr(val)[:200], "seconds": dt})
+        if pid_alive(pid):
+            ck.fail("local-child-alive-after-terminate:exit-request-unsendable", {"pid": pid, "seconds": dt})
+            try:
+                os.kill(pid, signal.SIGCONT)
+                os.kill(pid, signal.SIGKILL)
+            except OSError:
+                pass
     # the via gateway's process is already dead when terminate() is called: the member routed through it cannot be reached any more;
     # terminate must still return with an empty group (the orphaned worker ends by itself on EOF: C11)
     for rd in range(1 if tier == "quick" else 3):
